@@ -208,8 +208,8 @@ def work_hist(chunk):
         ref_d = json.loads(d1)
         for k in (1, 2, 3):
             for keep_logs in (False, True):
-                if keep_logs and (opts.get("absence") or _has_calendars(spec)):
-                    continue  # (with absence lists, which name absolute times, the appended life cycle is not a shifted copy)
+                if keep_logs and (opts.get("absence") or _has_calendars(spec) or opts.get("rule") == "FIFO"):
+                    continue  # (with absence lists, which name absolute times, the appended life cycle is not a shifted copy; neither under FIFO, whose key is read from the kept logs)
                 mo = runner.prepare(spec, opts)
                 try:
                     mo.project.simulate(**dict(runner.sim_kwargs(opts), max_time=k))
@@ -229,6 +229,40 @@ def work_hist(chunk):
                     col.violation({"property": "C09", "sig": "C09:run-started-again-after-a-stop-differs:%s" % ("logs-kept" if keep_logs else "everything-reset"), "kind": "hist", "spec": spec, "opts": opts,
                                    "hist": "sim(max_time=%d);sim(state reset, logs %s)" % (k, "kept" if keep_logs else "reset"),
                                    "detail": {"first_difference": first_diff(json.dumps(ref_d, sort_keys=True), json.dumps(got, sort_keys=True)) if not isinstance(got, str) else got}})
+        # (1d) a run stopped at step k (optionally a holiday is entered at the stop): the project rebuilt at new addresses from what it writes to JSON
+        #      must go on exactly like the original objects (nothing that steers the continuation may live outside the saved state)
+        for k in (1, 2, 3):
+            for ins in (None, [0], [1]):
+                import os
+                import tempfile
+                from pDESy.model.base_project import BaseProject
+
+                mo = runner.prepare(spec, opts)
+                try:
+                    mo.project.simulate(**dict(runner.sim_kwargs(opts), max_time=k))
+                    if ins is not None:
+                        mo.project.insert_absence_time_list(list(ins))
+                    fd, path = tempfile.mkstemp(prefix="verif-c09-", suffix=".json")
+                    os.close(fd)
+                    try:
+                        mo.project.write_simple_json(path)
+                        p2 = BaseProject()
+                        p2.read_simple_json(path)
+                    finally:
+                        os.unlink(path)
+                    cont = dict(runner.sim_kwargs(opts), initialize_state_info=False, initialize_log_info=False, max_time=kw["max_time"] + 4)
+                    mo.project.simulate(**cont)
+                    p2.simulate(**dict(cont, absence_time_list=list(cont["absence_time_list"])))
+                    da, db = jdump(mo), jdump(S.adopt(p2))
+                    diff = first_diff(da, db) if da != db else None
+                except Exception as e:
+                    diff = "ERR:" + repr(e)
+                col.evaluations += 2
+                col.checks["c09.continued-original-vs-rebuilt-copy"] += 1
+                col.transitions.add(hash((key, "stop;rebuild;continue", k, tuple(ins) if ins else None)))
+                if diff:
+                    col.violation({"property": "C09", "sig": "C09:continuation-of-a-rebuilt-copy-differs-from-the-original-objects" + (":holiday-entered-at-the-stop" if ins is not None else ""), "kind": "hist", "spec": spec, "opts": opts,
+                                   "hist": "sim(max_time=%d)%s;copy via JSON;continue both" % (k, ";insert%s" % ins if ins is not None else ""), "detail": {"first_difference(original, copy)": diff}})
         # (2) rebuilt model with the library's own classes (id()-hashed, new addresses), twice
         junk = [object() for _ in range(17)]
         e1 = runner.run(spec, dict(opts, plain=True, phases=()))
@@ -465,6 +499,17 @@ def hist_items(tier):
         out.append((sp, {"rule": "TSLACK", "max_time": F.seq_bound(sp) + 6}))
     for sp in F.scale_specs():
         out.append((sp, {"rule": "TSLACK", "max_time": F.seq_bound(sp) + 10}))
+    # FIFO reads the logs: waiting and running tasks competing for a worker who becomes free later; tasks holding two worker/machine pairs
+    for sp in F.rule_sensitive_specs()[:6] + [F.with_teams({"tasks": [{"name": "T0", "work": 4.0}, {"name": "T1", "work": 2.0}, {"name": "T2", "work": 3.0}], "links": []}, "POOL2")]:
+        out.append((sp, {"rule": "FIFO", "max_time": F.seq_bound(sp) + 10}))
+    for sp in F.two_pair_specs():
+        out.append((sp, {"rule": "TSLACK", "max_time": F.seq_bound(sp) + 8}))
+    # design -> build next to a long independent task; one worker cannot design: a running task that can take a second worker competes with a waiting one
+    for wv in ((3.0, 3.0, 6.0), (2.0, 3.0, 5.0), (3.0, 2.0, 4.0)):
+        sp = {"tasks": [{"name": "design", "work": wv[0]}, {"name": "build", "work": wv[1]}, {"name": "docs", "work": wv[2]}], "links": [[0, 1, "FS"]],
+              "teams": [{"name": "TM0", "targets": [0, 1, 2], "workers": [{"name": "ann", "skills": {"build": 1.0, "docs": 1.0}, "cost": 10.0}, {"name": "bob", "skills": {"design": 1.0, "build": 1.0, "docs": 1.0}, "cost": 7.0}]}]}
+        for rule in ("FIFO", "TSLACK"):
+            out.append((sp, {"rule": rule, "max_time": 24}))
     from . import c15 as _c15
 
     for sp, o in _c15.items("quick"):
